@@ -208,6 +208,7 @@ Record pp_sum (x x' : tc) (v h : N) (ent : ppent) : Prop := {
   ps_hc : t_h (tc_t x') = t_h (tc_t x) /\ t_cm (tc_t x') = t_cm (tc_t x);
   ps_pp : forall v' e', get_pp (tc_t x') v' = Some e' -> get_pp (tc_t x) v' = Some e' \/ (v' = v /\ e' = ent);
   ps_ppmono : pp_stable (tc_t x) (tc_t x');
+  ps_stored : get_pp (tc_t x') v = Some ent;
   ps_p : forall q, In q (t_p (tc_t x')) -> In q (t_p (tc_t x)) \/ q = (v, h, my_sig c);
   ps_pmono : incl (t_p (tc_t x)) (t_p (tc_t x'));
   ps_c : forall q, In q (t_c (tc_t x')) -> In q (t_c (tc_t x)) \/
@@ -225,9 +226,9 @@ Record pp_sum (x x' : tc) (v h : N) (ent : ppent) : Prop := {
 
 Lemma process_pp_own x r s b : get_pp (tc_t x) (r_view r) = None ->
   let x' := process_pp c wm shut x r s b in
-  x' = x \/ (tc_v x = r_view r /\ pp_sum x x' (r_view r) (r_hash r) {| pe_ref := r; pe_snd := s; pe_blk := b |}).
+  (tc_v x <> r_view r /\ x' = x) \/ (tc_v x = r_view r /\ pp_sum x x' (r_view r) (r_hash r) {| pe_ref := r; pe_snd := s; pe_blk := b |}).
 Proof.
-  intro Hnone. cbn zeta. unfold process_pp. destruct (N.eqb_spec (tc_v x) (r_view r)) as [Ev|Ev]; cbn [negb]; [|left; reflexivity].
+  intro Hnone. cbn zeta. unfold process_pp. destruct (N.eqb_spec (tc_v x) (r_view r)) as [Ev|Ev]; cbn [negb]; [|left; split; [exact Ev|reflexivity]].
   right. split; [exact Ev|]. unfold send_all.
   set (v := r_view r) in *. set (h := r_hash r) in *. set (ent := {| pe_ref := r; pe_snd := s; pe_blk := b |}).
   set (t0 := store_pp v ent (tc_t x)). set (t1 := store_p v h (my_sig c) t0).
@@ -262,6 +263,7 @@ Proof.
   - destruct P7 as [Q1 Q2]. rewrite Q1, Q2, B1. split; assumption.
   - intros v' e' H. apply Gpp. rewrite <- B1. rewrite <- (get_pp_ext _ _ v' P5). exact H.
   - intros v' e' H. rewrite (get_pp_ext _ _ v' P5), B1. subst t1. rewrite get_pp_store_p. apply pp_stable_store_pp. exact H.
+  - rewrite (get_pp_ext _ _ v P5), B1. subst t1. rewrite get_pp_store_p. exact Ht0.
   - intros [[v' h'] s'] Hq. rewrite P6, B1, U6 in Hq. apply In_store_in in Hq. exact Hq.
   - rewrite P6, B1, U6. apply incl_store_in.
   - intros q Hq. destruct P11 as [(Q1 & Q2 & Q3)|(Q1 & Q2 & Q3 & Q4 & Q5 & Q6 & Q7 & Q8)].
@@ -426,6 +428,8 @@ Record step_sum (e : tev) (x x' : tc) : Prop := {
            (exists r s b wm' sh', e = TMsg (MPP r s b) wm' sh' /\ en = {| pe_ref := r; pe_snd := s; pe_blk := b |} /\ r_view r = v /\ In (v, r_hash r) (E x')) \/
            (exists nty ninst nh nvw vs sg pp pps b wm' sh', e = TMsg (MNV nty ninst nh nvw vs sg pp pps b) wm' sh' /\
                 en = {| pe_ref := pp; pe_snd := pps; pe_blk := b |} /\ r_view pp = v /\ In (v, r_hash pp) (E x'));
+  ss_vceq : t_vc (tc_t x') = t_vc (tc_t x) \/
+            exists v vt b, t_vc (tc_t x') = t_vc (tc_t x) ++ [(v, (vt, b))] /\ has_vc (tc_t x) v (s_id (v_snd vt)) = false;
   ss_vc : forall v vt b, In (v, (vt, b)) (t_vc (tc_t x')) -> In (v, (vt, b)) (t_vc (tc_t x)) \/
            (s_id (v_snd vt) = me /\ In vt (Vt me x')) \/ (exists wm' sh', e = TMsg (MVC vt b) wm' sh')
 }.
@@ -493,6 +497,7 @@ Proof.
     destruct (In_store_in _ _ _ _ _ _ _ H) as [H'|H']; [left; exact H'|]. inversion H'; subst. right; right. do 4 eexists. repeat split; auto.
   - right. exists v, h, s. rewrite Tc. subst xa. cbn [tc_set_t tc_t store_c t_c]. rewrite ?A1. auto.
   - intros v' en H. left. rewrite (get_pp_ext _ _ v' S6) in H. subst xa. cbn [tc_set_t tc_t] in H. rewrite get_pp_store_c, ?A1 in H. exact H.
+  - left. rewrite S5. subst xa. cbn [tc_set_t tc_t store_c t_vc]. rewrite ?A1. reflexivity.
   - intros v' vt b H. left. rewrite S5 in H. subst xa. cbn [tc_set_t tc_t store_c t_vc] in H. rewrite ?A1 in H. exact H.
 Qed.
 
@@ -553,6 +558,7 @@ Proof.
     + left. rewrite Q2. subst xa. reflexivity.
     + right. exists v, h, (my_sig c). subst xa. cbn [tc_set_t tc_t store_p t_c] in Q8. split; [exact Q8|]. split; [reflexivity|]. apply (si_me _ _ SI).
   - intros v' en H. left. apply Gpp. exact H.
+  - left. rewrite P4. subst xa. reflexivity.
   - intros v' vt b H. left. rewrite P4 in H. subst xa. exact H.
 Qed.
 
@@ -578,9 +584,9 @@ Lemma process_pp_step e x xin r s b : TInv c x -> isMember (t_cm (tc_t x)) me = 
 Proof.
   intros TI Hme [K1 K2 K3 K4 K5 K6 Kmp K7 K8 K9 K10 K11 [K12 K13]] Hnone Horig Sin.
   assert (Hnone' : get_pp (tc_t xin) (r_view r) = None) by (rewrite (get_pp_ext _ _ _ K7); exact Hnone).
-  destruct (process_pp_own xin r s b Hnone') as [->|[Ev PS]]; [exact Sin|]. cbn zeta in *.
+  destruct (process_pp_own xin r s b Hnone') as [[_ ->]|[Ev PS]]; [exact Sin|]. cbn zeta in *.
   set (x' := process_pp c wm shut xin r s b) in *. set (v := r_view r) in *. set (h := r_hash r) in *.
-  destruct PS as [S1 S2 S3 S4 [S5 S5'] S6 S7 S8 S9 S10 S11 Sceq S12 S13 S14 S15 S16 S17].
+  destruct PS as [S1 S2 S3 S4 [S5 S5'] S6 S7 Sst S8 S9 S10 S11 Sceq S12 S13 S14 S15 S16 S17].
   assert (EV : Vt me x' = Vt me x) by (apply Vt_eq; [rewrite S3; exact K5|rewrite S4; exact K10]).
   assert (GP : forall v' en, get_pp (tc_t xin) v' = Some en -> get_pp (tc_t x) v' = Some en) by (intros v' en H; rewrite <- (get_pp_ext _ _ v' K7); exact H).
   assert (GP' : forall v' en, get_pp (tc_t x) v' = Some en -> get_pp (tc_t xin) v' = Some en) by (intros v' en H; rewrite (get_pp_ext _ _ v' K7); exact H).
@@ -614,6 +620,7 @@ Proof.
     right; right. destruct (Horig _ eq_refl) as [(r0 & s0 & b0 & wm' & sh' & A & B & C0)|(nty & ninst & nh & nvw & vs & sg & pp & pps & b0 & wm' & sh' & A & B & C0)].
     + left. exists r0, s0, b0, wm', sh'. repeat split; auto. inversion B; subst. rewrite S2. left; reflexivity.
     + right. exists nty, ninst, nh, nvw, vs, sg, pp, pps, b0, wm', sh'. repeat split; auto. inversion B; subst. rewrite S2. left; reflexivity.
+  - left. rewrite S4, K10. reflexivity.
   - intros v' vt b' H. left. rewrite S4, K10 in H. exact H.
 Qed.
 
@@ -667,7 +674,8 @@ Proof.
       all: try (intros v' h' s' H; left; rewrite ?K8, ?K9 in H; exact H).
       all: try (intros v' en H; left; rewrite (get_pp_ext _ _ v' K7) in H; exact H).
       all: try (intros v' vt b' H; left; rewrite K10 in H; exact H).
-      all: try (left; exact K9). }
+      all: try (left; exact K9).
+      all: try (left; exact K10). }
     apply process_pp_step; [exact TI|apply (si_me _ _ SI)|exact LK|apply validate_pp_none with pps; exact Ev| |exact S1].
     intros en ->. right. exists nty, ninst, nh, nvw, vs, sg, pp, pps, b, wm', sh'. auto. }
   destruct (latest_vote vs) as [lv|].
@@ -688,7 +696,7 @@ Proof.
   destruct (check_elected_own xa v) as [->|[Hlt EL]]; [exact Sa|]. cbn zeta in *.
   set (x' := check_elected c wm shut xa v) in *.
   destruct EL as [S1 S2 S3 S4 S5 S6 S7 [S8 S8'] S9 S10 So Sc S11].
-  destruct Sa as [T1 [T2 T2'] T3 T4 T5 T6 T7 T8 T9 T10 T11 T11' T12 T13 T14 Tceq T15 T16].
+  destruct Sa as [T1 [T2 T2'] T3 T4 T5 T6 T7 T8 T9 T10 T11 T11' T12 T13 T14 Tceq T15 Tvceq T16].
   assert (EV : Vt me x' = Vt me xa) by (apply Vt_eq; assumption).
   constructor.
   - lia.
@@ -753,6 +761,7 @@ Proof.
     + apply OLD. apply Hpp. exact H.
     + destruct (Hpp _ _ H) as [H'|(-> & H1 & H2 & H3)]; [apply OLD; exact H'|].
       right; left. split; [exact H1|]. split; [exact H2|]. rewrite Ee, H3. left; reflexivity.
+  - rewrite S5. exact Tvceq.
   - intros v' vt b H. rewrite S5 in H. apply T16 in H. destruct H as [H|[[H1 H2]|H]]; auto.
     right; left. split; [exact H1|]. rewrite EV. exact H2.
 Qed.
@@ -760,8 +769,8 @@ Qed.
 Lemma store_vc_cases v vt b t :
   store_vc v vt b t = t \/ (t_vc (store_vc v vt b t) = t_vc t ++ [(v, (vt, b))] /\ t_pp (store_vc v vt b t) = t_pp t /\ t_p (store_vc v vt b t) = t_p t /\
      t_c (store_vc v vt b t) = t_c t /\ t_prepared (store_vc v vt b t) = t_prepared t /\ t_latest (store_vc v vt b t) = t_latest t /\
-     t_h (store_vc v vt b t) = t_h t /\ t_cm (store_vc v vt b t) = t_cm t).
-Proof. unfold store_vc. destruct (memN _ _); [left; reflexivity|right; cbn; auto 10]. Qed.
+     t_h (store_vc v vt b t) = t_h t /\ t_cm (store_vc v vt b t) = t_cm t /\ has_vc t v (s_id (v_snd vt)) = false).
+Proof. unfold store_vc, has_vc. destruct (memN _ _) eqn:E0; [left; reflexivity|right; cbn; auto 10]. Qed.
 
 Lemma own_stored_app t l : own_stored me {| t_h := t_h t; t_cm := t_cm t; t_pp := t_pp t; t_p := t_p t; t_c := t_c t; t_vc := t_vc t ++ l;
     t_prepared := t_prepared t; t_latest := t_latest t; t_committed := t_committed t |} = own_stored me t ++ flat_map (fun e => if N.eqb (s_id (v_snd (fst (snd e)))) me then [fst (snd e)] else []) l.
@@ -783,7 +792,7 @@ Proof.
   apply elected_step; try assumption.
   - subst xa. cbn [tc_set_t tc_t]. destruct (store_vc_cases v vt b (tc_t x)) as [->|(_ & _ & _ & _ & _ & L & _)]; [reflexivity|exact L].
   - subst xa. unfold lockv. cbn [tc_set_t tc_t]. destruct (store_vc_cases v vt b (tc_t x)) as [->|(_ & _ & _ & _ & P & _)]; [reflexivity|exact P].
-  - destruct (store_vc_cases v vt b (tc_t x)) as [Es|(V1 & V2 & V3 & V4 & V5 & V6 & V7 & V8)].
+  - destruct (store_vc_cases v vt b (tc_t x)) as [Es|(V1 & V2 & V3 & V4 & V5 & V6 & V7 & V8 & V9)].
     + (* nothing stored: the state is x0 *)
       subst xa. rewrite Es.
       assert (EV : Vt me (tc_set_t (tc_t x) x0) = Vt me x) by (apply Vt_eq; [exact ES|reflexivity]).
@@ -824,6 +833,7 @@ Proof.
       * intros v' h' s' H. left. rewrite V4 in H. exact H.
       * left. exact V4.
       * intros v' en H. left. rewrite (get_pp_ext _ _ v' V2) in H. exact H.
+      * right. exists v, vt, b. split; [exact V1|exact V9].
       * intros v' vt' b' H. rewrite V1 in H. apply in_app_or in H. destruct H as [H|[H|[]]]; [left; exact H|]. inversion H; subst v' vt' b'.
         destruct Horig as [[Hm _]|(Hme & _)]; [right; right; exact Hm|].
         right; left. split; [exact Hme|]. unfold Vt. cbn [tc_set_t tc_out tc_t]. apply in_or_app. right. rewrite EVa. apply in_or_app. right.
@@ -968,6 +978,7 @@ Proof.
     + intros v' h' s' H. left. exact H.
     + left. reflexivity.
     + intros v' en H. left. exact H.
+    + left. reflexivity.
     + intros v' vt' b' H. left. exact H.
 Qed.
 End OwnStep.
